@@ -20,7 +20,8 @@ It is the model of Drand/Net/Protocol.lean with what that one abstracts away mad
 A partial carries the signer's share index and the epoch (= polynomial) of the share that made it. Ideal cryptography:
 a partial verifies under exactly the polynomial of its epoch (a share of the previous epoch is valid under the new polynomial
 only by coincidence). The partial cache is keyed by (round, signer index) as partialCache/roundCache are: a second partial
-with the same index is ignored whatever its epoch.
+with the same index is ignored whatever its epoch (variant `replace`, regenerated from `roundCache.append`: the newest
+partial of an index replaces the cached one).
 
 `cfg.lateSwitch` is the variant switch (DESIGN §2.5): false = the code as it is (Gen.transitionLateSwitch), true = the
 repair of reports/trans_fix_1.diff (TransitionNewGroup switches at once when the head is already at the target).
@@ -75,6 +76,9 @@ structure Node where
   pend : Option Pend := none
   /-- group and share files: what a new Handler of this node is built with -/
   disk : Vault
+  /-- the variant of `roundCache.append` this node runs (`Cfg.replaceSameIndex`, regenerated: Gen.replaceSameIndex):
+  false = the first partial of an index is kept, true = the newest one replaces it -/
+  replace : Bool := false
 
 /-- a partial signature: sender (peer address), signer index inside the signature, epoch of the signing share -/
 structure Msg where
@@ -88,6 +92,8 @@ structure Msg where
 structure Cfg where
   /-- `TransitionNewGroup` switches at once when the head is already at the target round -/
   lateSwitch : Bool
+  /-- `roundCache.append` replaces the partial cached for a signer index by the newest one (reports/quiet_fix_2.diff) -/
+  replaceSameIndex : Bool := false
   deriving DecidableEq, Repr
 
 structure State where
@@ -115,6 +121,10 @@ def flush (held : Nat → Nat → Option Nat) (r : Nat) : Nat → Nat → Option
 def addPartial (held : Nat → Nat → Option Nat) (r idx ep : Nat) : Nat → Nat → Option Nat :=
   fun r' k => if r' = r ∧ k = idx then (match held r k with | some x => some x | none => some ep) else held r' k
 
+/-- `cache.Append`, variant "newest wins": the partial replaces what is cached for the index -/
+def setPartial (held : Nat → Nat → Option Nat) (r idx ep : Nat) : Nat → Nat → Option Nat :=
+  fun r' k => if r' = r ∧ k = idx then some ep else held r' k
+
 def Node.setHead (d : Node) (r : Nat) : Node := { d with head := r }
 def Node.setTick (d : Node) (c : Nat) : Node := { d with lastTick := c }
 def Node.setHeld (d : Node) (h : Nat → Nat → Option Nat) : Node := { d with held := h }
@@ -135,12 +145,16 @@ def Node.appendTo (d : Node) (target : Nat) : Node :=
   let d' := (List.range' (d.head + 1) (target - d.head)).foldl Node.put d
   d'.setHeld (flush d'.held d'.head)
 
+/-- `cache.Append` at this node, in the variant it runs -/
+def Node.cacheAdd (d : Node) (r idx ep : Nat) : Nat → Nat → Option Nat :=
+  if d.replace then setPartial d.held r idx ep else addPartial d.held r idx ep
+
 /-- `runAggregator` on one admitted partial (own or received) -/
 def Node.aggregate (B : Nat) (d : Node) (idx ep r : Nat) : Node :=
   if !Gen.aggInWindow r d.head then d
   else
     let thr := d.vault.grp.thr                                         -- read now, from the vault
-    let held := addPartial d.held r idx ep
+    let held := d.cacheAdd r idx ep
     if Gen.aggNotEnough (count B held r) thr then d.setHeld held
     else if valid B held r d.vault.epoch < thr then d.setHeld held     -- Recover: not enough valid partials → break
     else
@@ -298,8 +312,8 @@ def State.init (cfg : Cfg) (n nIdx : Nat) (g : Grp) : State :=
   { cfg, n, nIdx,
     node := fun i =>
       match g.members.find? (fun m => m.node == i) with
-      | some m => { up := true, vault := ⟨g, 0, m.index⟩, disk := ⟨g, 0, m.index⟩ }
-      | none => { up := false, vault := ⟨g, 0, 0⟩, disk := ⟨g, 0, 0⟩ },
+      | some m => { up := true, vault := ⟨g, 0, m.index⟩, disk := ⟨g, 0, m.index⟩, replace := cfg.replaceSameIndex }
+      | none => { up := false, vault := ⟨g, 0, 0⟩, disk := ⟨g, 0, 0⟩, replace := cfg.replaceSameIndex },
     conn := fun _ _ => true, msgs := [] }
 
 /-! ### fair sub-rounds -/
